@@ -33,6 +33,7 @@ Prods == [
                   <<"<stmt:SELECT", "with", "Ctes", "Select", ">stmt">>,
                   <<"<stmt:INSERT", "with", "Ctes", "Insert", ">stmt">>,
                   <<"<stmt:DROP", "drop", "table", "<idx", "Ref", ">idx", ">stmt">>,
+                  <<"<stmt:UNKNOWN", "<par", "lp", "Select", "rp", ">par", ">stmt">>,      \* a parenthesised query as a statement
                   <<"<stmt:SELECT", "Select", ">stmt">> >>,
   Select   |-> << <<"select", "ItemsL", "FromOpt", "WhereOpt", "GroupOpt", "HavingOpt", "OrderOpt", "LimitOpt", "SetOpt">>,
                   <<"select", "distinct", "ItemsL", "FromOpt", "WhereOpt", "GroupOpt", "HavingOpt", "OrderOpt", "LimitOpt", "SetOpt">> >>,
@@ -136,7 +137,7 @@ Spec == Init /\ [][Next]_vars
 \* annotation markers are well nested in every finished program (checked by TLC)
 IsOpen(s)  == s \in {"<idx", "<id", "<list", "<item", "<where", "<par", "<fn", "<arg", "<case", "<when", "<then", "<else",
                      "<operand", "<cmp", "<l", "<r", "<tl", "<br", "<n", "<q", "<a",
-                     "<stmt:SELECT", "<stmt:INSERT", "<stmt:UPDATE", "<stmt:DELETE", "<stmt:CREATE", "<stmt:DROP"}
+                     "<stmt:SELECT", "<stmt:INSERT", "<stmt:UPDATE", "<stmt:DELETE", "<stmt:CREATE", "<stmt:DROP", "<stmt:UNKNOWN"}
 IsClose(s) == s \in {">idx", ">id", ">list", ">item", ">where", ">par", ">fn", ">arg", ">case", ">when", ">then", ">else",
                      ">operand", ">cmp", ">l", ">r", ">tl", ">br", ">n", ">q", ">a", ">stmt"}
 RECURSIVE Depth(_, _, _)
